@@ -43,7 +43,8 @@ def features(prog):
 
     def st(s):
         if isinstance(s, FuncDecl):
-            feats.add("func")
+            form = getattr(s, "form", None)
+            feats.add("func" if form is None else "func:%s" % (form if isinstance(form, str) else form[0]))
             for b in s.body:
                 st(b)
             return
